@@ -55,7 +55,7 @@ var impWants = []impWant{
 	{dir: "formats/fasta", pkg: "fastard", funcs: []string{"reader.read", "reader.iter"}, errZ: true},
 	{dir: "formats/fastq", pkg: "fastq", funcs: []string{"Fastq.Write"}, join: true},
 	{dir: "formats/fastq", pkg: "fastqrd", funcs: []string{"reader.read", "reader.iter"}, errZ: true, join: true},
-	{dir: "formats/sam", pkg: "sam", funcs: []string{"tagToText", "tagsToText", "SAM.Write"}, join: true, floatAs: "F"},
+	{dir: "formats/sam", pkg: "sam", funcs: []string{"tagToText", "tagsToText", "SAM.Write", "splitTag", "parseTags", "parseInts", "parseLine"}, join: true, floatAs: "F"},
 	{dir: "formats/bed", pkg: "bed", funcs: []string{"BED.Write", "parseLine", "reader.read"}, join: true, errZ: true},
 	{dir: "formats/newick", pkg: "newick", funcs: []string{"quoted", "nameFromText", "nameToText", "Node.traverse", "Node.newick"}, floatAs: "F"},
 	{dir: "formats/newick", pkg: "newickrd", funcs: []string{"reader.nextToken"}, errZ: true, floatAs: "F"},
@@ -66,6 +66,7 @@ type impFn struct {
 	fuel   bool
 	stream bool // takes and returns the stream state rd__
 	oracle bool // takes the float oracle o (strconv's parse / format tables)
+	out    int  // index of a []*int parameter (out-parameters): their final values are returned first (-1: none)
 	buf    int  // index of a *bytes.Buffer / *strings.Builder parameter whose new value is the result (-1: none)
 }
 
@@ -106,6 +107,7 @@ type impTr struct {
 	self     types.Object
 	selfFn   *impFn
 	bufName  string
+	outName  string
 	tupleTys map[string]string
 	recv     string // the reader object's record (fields other than the bufio one), returned with rd__
 	results  *types.Tuple
@@ -221,6 +223,9 @@ func (t *impTr) ty(ty types.Type) string {
 	case *types.Pointer:
 		return t.ty(u.Elem())
 	case *types.Map:
+		if !isSetMap(ty) && isAny(u.Elem()) {
+			return "(list (" + t.ty(u.Key()) + " * go_any))"
+		}
 		if isSetMap(ty) {
 			return "(list " + t.ty(u.Key()) + ")"
 		}
@@ -911,6 +916,12 @@ func (t *impTr) call(e *ast.CallExpr, pre *[]opener) string {
 				t.fail(e, "strings.Split with a separator that is not a one-byte constant")
 			}
 			return fmt.Sprintf("(split_on %d%%N %s)", constant.StringVal(sep.Value)[0], t.ex(e.Args[0], pre))
+		case "github.com/fluhus/gostuff/snm.At":
+			l := t.ex(e.Args[0], pre)
+			idx := t.ex(e.Args[1], pre)
+			v := t.fresh()
+			*pre = append(*pre, opener{fmt.Sprintf("go_snm_at %s %s (fun %s => ", l, idx, v), ")"})
+			return v
 		case "strconv.Itoa":
 			return "(itoa " + t.ex(e.Args[0], pre) + ")"
 		case "strconv.FormatFloat":
@@ -1051,6 +1062,9 @@ func (t *impTr) assigned(n ast.Node) ([]types.Object, int) {
 				e = x.X
 				continue
 			case *ast.SliceExpr:
+				e = x.X
+				continue
+			case *ast.StarExpr:
 				e = x.X
 				continue
 			}
@@ -1214,6 +1228,9 @@ func (t *impTr) store(lhs ast.Expr, v string, pre *[]opener) {
 	case *ast.ParenExpr:
 		t.store(l.X, v, pre)
 		return
+	case *ast.StarExpr:
+		t.store(l.X, v, pre) // *p[i] = n on out-parameters kept as values
+		return
 	case *ast.Ident:
 		if l.Name == "_" {
 			return
@@ -1232,6 +1249,11 @@ func (t *impTr) store(lhs ast.Expr, v string, pre *[]opener) {
 		if isSetMap(xt) {
 			k := t.ex(l.Index, pre)
 			t.store(l.X, fmt.Sprintf("(set_insert %s %s)", k, t.ex(l.X, pre)), pre)
+			return
+		}
+		if mt, ok := xt.Underlying().(*types.Map); ok && isAny(mt.Elem()) {
+			k := t.ex(l.Index, pre)
+			t.store(l.X, fmt.Sprintf("(go_map_set %s %s %s)", k, v, t.ex(l.X, pre)), pre)
 			return
 		}
 		switch xt.Underlying().(type) {
@@ -1688,6 +1710,14 @@ func (t *impTr) assign(s *ast.AssignStmt, pre *[]opener) {
 					lib = "go_atoi_z "
 				}
 				lib += t.ex(call.Args[0], pre)
+			case "strconv.ParseFloat":
+				if t.floatAs == "" {
+					t.fail(s, "ParseFloat in a package whose floats are integers")
+				}
+				t.oracle = true
+				lib = "go_parse_float o " + t.ex(call.Args[0], pre)
+			case "encoding/hex.DecodeString":
+				lib = "go_hex_decode " + t.ex(call.Args[0], pre)
 			case "strconv.ParseUint":
 				b, bok := t.info.Types[call.Args[1]]
 				w, wok := t.info.Types[call.Args[2]]
@@ -1725,6 +1755,9 @@ func (t *impTr) assign(s *ast.AssignStmt, pre *[]opener) {
 			t.fuel = true
 			args = append(args, "fuel")
 		}
+		if fn.oracle {
+			args = append(args, "o")
+		}
 		if fn.stream {
 			args = append(args, "rd__")
 		}
@@ -1752,7 +1785,18 @@ func (t *impTr) assign(s *ast.AssignStmt, pre *[]opener) {
 		t.fail(s, "unsupported assignment")
 	}
 	if len(s.Lhs) == 1 {
+		if call, ok := s.Rhs[0].(*ast.CallExpr); ok {
+			if fn, ok := t.fns[t.calleeObj(call.Fun)]; ok && fn.out >= 0 {
+				t.callWithOut(call, fn, []ast.Expr{s.Lhs[0]}, pre)
+				return
+			}
+		}
 		v := t.ex(s.Rhs[0], pre)
+		if ie, ok := s.Lhs[0].(*ast.IndexExpr); ok {
+			if mt, ok := t.typeOf(ie.X).Underlying().(*types.Map); ok && isAny(mt.Elem()) {
+				v = t.anyOf(v, t.typeOf(s.Rhs[0]), s)
+			}
+		}
 		t.store(s.Lhs[0], v, pre)
 		return
 	}
@@ -1794,6 +1838,21 @@ func (t *impTr) rangeStmt(s *ast.RangeStmt, rest func() string) string {
 	var loop string
 	switch u := xt.Underlying().(type) {
 	case *types.Basic:
+		if u.Info()&types.IsString != 0 {
+			// the runes of a string: taken bytewise, which is the same as long as the rune is
+			// only compared with ASCII constants (a byte below 0x80 is never part of a longer rune)
+			if s.Value != nil {
+				t.asciiOnly(s.Body, t.info.Defs[s.Value.(*ast.Ident)])
+			}
+			vn := name(s.Value)
+			conv := ""
+			if vn != "_" {
+				conv = fmt.Sprintf("let %s := Z.of_N %s__ in ", vn, vn)
+				vn += "__"
+			}
+			loop = fmt.Sprintf("go_range %s (fun %s %s %s => %s%s) %s", x, name(s.Key), vn, pat(state), conv, body(), state)
+			break
+		}
 		if u.Info()&types.IsInteger == 0 || s.Value != nil {
 			t.fail(s, "unsupported range")
 		}
@@ -1936,6 +1995,83 @@ func hasBranch(n ast.Node) bool {
 	return found
 }
 
+// asciiOnly checks that every use of the rune variable v in n is a comparison with a constant
+// below 0x80.
+func (t *impTr) asciiOnly(n ast.Node, v types.Object) {
+	ok := map[*ast.Ident]bool{}
+	ast.Inspect(n, func(m ast.Node) bool {
+		if be, isBin := m.(*ast.BinaryExpr); isBin && (be.Op == token.EQL || be.Op == token.NEQ) {
+			for _, pair := range [][2]ast.Expr{{be.X, be.Y}, {be.Y, be.X}} {
+				if id, isId := pair[0].(*ast.Ident); isId && t.info.Uses[id] == v {
+					if tv, has := t.info.Types[pair[1]]; has && tv.Value != nil {
+						if c, exact := constant.Int64Val(constant.ToInt(tv.Value)); exact && c >= 0 && c < 0x80 {
+							ok[id] = true
+						}
+					}
+				}
+			}
+		}
+		return true
+	})
+	ast.Inspect(n, func(m ast.Node) bool {
+		if id, isId := m.(*ast.Ident); isId && t.info.Uses[id] == v && !ok[id] {
+			t.fail(id, "a rune of a ranged string is used other than in a comparison with an ASCII constant")
+		}
+		return true
+	})
+}
+
+// callWithOut translates  lhs... = f(args..., &a, &b, ...)  where f takes out-parameters.
+func (t *impTr) callWithOut(call *ast.CallExpr, fn *impFn, lhs []ast.Expr, pre *[]opener) {
+	args := []string{}
+	if fn.fuel {
+		t.fuel = true
+		args = append(args, "fuel")
+	}
+	if fn.oracle {
+		args = append(args, "o")
+	}
+	var places []ast.Expr
+	var cur []string
+	for i, a := range call.Args {
+		if i < fn.out {
+			args = append(args, t.ex(a, pre))
+			continue
+		}
+		// &x  or  (*T)(&x)
+		for {
+			if c, ok := a.(*ast.CallExpr); ok && len(c.Args) == 1 {
+				a = c.Args[0]
+				continue
+			}
+			if p, ok := a.(*ast.ParenExpr); ok {
+				a = p.X
+				continue
+			}
+			break
+		}
+		u, ok := a.(*ast.UnaryExpr)
+		if !ok || u.Op != token.AND {
+			t.fail(a, "an out-parameter that is not an address")
+		}
+		places = append(places, u.X)
+		cur = append(cur, t.ex(u.X, pre))
+	}
+	args = append(args, "["+strings.Join(cur, "; ")+"]")
+	p := t.fresh()
+	var tmps []string
+	for range lhs {
+		tmps = append(tmps, t.fresh())
+	}
+	*pre = append(*pre, opener{fmt.Sprintf("go_call (%s %s) (fun '(%s, %s) => ", fn.name, strings.Join(args, " "), p, strings.Join(tmps, ", ")), ")"})
+	for i, pl := range places {
+		t.store(pl, fmt.Sprintf("(nth %d %s 0%%Z)", i, p), pre)
+	}
+	for i, l := range lhs {
+		t.store(l, tmps[i], pre)
+	}
+}
+
 func objNames(objs []types.Object) []string {
 	var out []string
 	for _, o := range objs {
@@ -1979,6 +2115,7 @@ func (t *impTr) function(fd *ast.FuncDecl, coqName string) *impFn {
 	t.stream = false
 	t.recv = ""
 	t.bufName = ""
+	t.outName = ""
 	// pre-scan: recursion, float formatting
 	t.self = t.info.Defs[fd.Name]
 	t.oracle = false
@@ -2001,7 +2138,7 @@ func (t *impTr) function(fd *ast.FuncDecl, coqName string) *impFn {
 		}
 		return true
 	})
-	t.selfFn = &impFn{name: coqName, fuel: recursive, oracle: t.oracle, buf: -1}
+	t.selfFn = &impFn{name: coqName, fuel: recursive, oracle: t.oracle, buf: -1, out: -1}
 	if recursive {
 		t.fuel = true
 		t.fns[t.self] = t.selfFn
@@ -2014,6 +2151,13 @@ func (t *impTr) function(fd *ast.FuncDecl, coqName string) *impFn {
 		if isBuilder(o.Type()) {
 			t.bufName = t.nameOf(o)
 			t.selfFn.buf = len(params)
+		}
+		if sl, ok := o.Type().Underlying().(*types.Slice); ok {
+			if _, ok := sl.Elem().Underlying().(*types.Pointer); ok {
+				// p ...*int: the pointed-to values; `*p[i] = n` updates the list, which is returned
+				t.outName = t.nameOf(o)
+				t.selfFn.out = len(params)
+			}
 		}
 		if p, ok := o.Type().Underlying().(*types.Pointer); ok {
 			if st, ok := p.Elem().Underlying().(*types.Struct); ok {
@@ -2147,6 +2291,14 @@ func (t *impTr) function(fd *ast.FuncDecl, coqName string) *impFn {
 			end = "Ret " + t.bufName
 			t.retWrap = func(string) string { return "Ret " + t.bufName }
 			rt = "(list N)"
+		}
+		if t.outName != "" {
+			inner := t.retWrap
+			on := t.outName
+			t.retWrap = func(v string) string {
+				return "Ret (" + on + ", " + strings.TrimPrefix(inner(v), "Ret ") + ")"
+			}
+			rt = "((list Z) * " + rt + ")"
 		}
 		if t.stream {
 			inner := t.retWrap
